@@ -977,7 +977,7 @@ static void SwitchTo_OLMS50(void) {
     SegInits[SegCode]  = 0;
     Grans[SegData]     = 1;
     ListGrans[SegData] = 1;
-    SegInits[SegCode]  = 0;
+    SegInits[SegData]  = 0;
     if (MomCPU == CPU5054) {
         CodeIntType        = UInt10;
         DataIntType        = UInt6;
